@@ -241,6 +241,47 @@ def taikoSkillsOfBytes (A : SecArith R) (fuel : Nat) (bytes : List UInt8) (mods 
     | .panic => .panic
     | .fuel => .fuel
 
+/-! ## the gradual calculator with the concrete skills -/
+
+/-- the five skill states, each with its own outcome -/
+abbrev S5 (R : Type) :=
+  Res (StateV R (R × Unit)) × Res (StateV R (R × R)) × Res (StateV R (R × Unit)) × Res (StateV R R) × Res (StateV R R)
+
+/-- `skill.process(&diff_objects[d], &diff_objects)`; a failure is absorbing -/
+def stepRes {P σ : Type} (A : SecArith R) (F : FnsV R P σ) (fuel : Nat) (diffs : List (Obj R P))
+    (s : Res (StateV R σ)) (d : Nat) : Res (StateV R σ) :=
+  s.bind fun st =>
+    match diffs[d]? with
+    | some o => processV A fmax F fuel st o
+    | none => .panic
+
+/-- the skills of `TaikoGradualDifficulty`: the records come from ALL objects -/
+def concreteSkills5 (A : SecArith R) (fuel : Nat) (hitWindow : R) (isConvert : Bool) (recs : List (TObj R)) :
+    Gradual.Skills (S5 R) where
+  init := (.ok (StateV.init 0.0 (0.0, ())), .ok (StateV.init 0.0 (0.0, 0.0)), .ok (StateV.init 0.0 (0.0, ())),
+    .ok (StateV.init 0.0 0.0), .ok (StateV.init 0.0 0.0))
+  process s d :=
+    let ratios := recs.map fun o => o.data.ratio
+    (stepRes A (rhythmFns hitWindow) fuel recs s.1 d, stepRes A readingFns fuel recs s.2.1 d,
+      stepRes A (colorFns ratios) fuel recs s.2.2.1 d, stepRes A (staminaFns false isConvert) fuel recs s.2.2.2.1 d,
+      stepRes A (staminaFns true isConvert) fuel recs s.2.2.2.2 d)
+
+/-- the outcome `DifficultyValues::calculate`-style: first failure in skill order -/
+def combine5 (s : S5 R) : Res (Skills R) :=
+  s.1.bind fun a => s.2.1.bind fun b => s.2.2.1.bind fun c => s.2.2.2.1.bind fun d => s.2.2.2.2.bind fun e =>
+    .ok ⟨a, b, c, d, e⟩
+
+/-- the values `TaikoGradualDifficulty::next` yields until `None` (at most `hits.length` of them):
+`(max_combo, skills)` each -/
+def gradualValues (A : SecArith R) (fuel : Nat) (hitWindow : R) (hits : List Bool) (recs : List (TObj R)) :
+    List (Gradual.Res (Nat × Res (Skills R))) :=
+  let sk := concreteSkills5 A fuel hitWindow false recs
+  ((Gradual.taikoMachine sk hits).nexts (Gradual.taikoNew sk hits) hits.length).1.map fun r =>
+    match r with
+    | .some (mc, s) => .some (mc, combine5 s)
+    | .none => .none
+    | .panic => .panic
+
 end
 
 end Rosu.PipelineTaiko
